@@ -156,7 +156,9 @@ def _execute(sc, sim, out):
     # (values as a user would type them: python ints mixed with floats)
     for key_, fn_ in sorted([('ZETA', lambda i: (3 * i + 2) if i % 2 == 0 else 3.3 * i + 0.75), ('ALPHA', lambda i: -1.0 / (i + 1.5)), ('MID', lambda i: 100 + 7 * i),
                              # a stage flag 0 / 1 / 2 and a disc mass that is exactly zero for some models
-                             ('STAGE', lambda i: i % 3), ('MDISK', lambda i: 0.0 if i % 2 else 2.5e-3 * (i + 1))],
+                             ('STAGE', lambda i: i % 3), ('MDISK', lambda i: 0.0 if i % 2 else 2.5e-3 * (i + 1)),
+                             # derived quantities in cgs / photon-rate units: far outside the single-precision range
+                             ('QION', lambda i: 1.7e44 * 10.0 ** (i % 6)), ('TINY', lambda i: 3.3e-42 * (i + 1))],
                             key=lambda kv: hash_order(kv[0], sc['theta_seed'])):
         order_ = sorted(range(len(names)), key=lambda i: hash_order(names[i], sc['theta_seed']))
         add[key_] = {names[i]: fn_(i) for i in order_}
